@@ -121,3 +121,9 @@ From BL Require Import Gen.SourceTables Proofs.SourceTables.
 Theorem C18_arities_are_the_sources : forall name, builtin_arity name = assoc_arity name src_arity.
 Proof. exact arities_are_the_sources. Qed.
 Print Assumptions C18_arities_are_the_sources.
+
+(* the pool size and the head-room of Stack::is_full are the source's (regenerated by tools/tables.py on every run) *)
+Theorem C18_pool_limits_are_the_sources :
+  MAX_POOL = src_max_pool /\ forall r, stack_is_full r = (src_max_pool - src_full_headroom <? r_slen r).
+Proof. exact (conj (proj1 (proj2 (proj2 limits_are_the_sources))) (proj2 (proj2 (proj2 limits_are_the_sources)))). Qed.
+Print Assumptions C18_pool_limits_are_the_sources.
